@@ -213,7 +213,22 @@ def run_one(case):
 def run_case(case):
     if case.get("kind") == "concurrent":
         return run_concurrent(case)
+    if case.get("kind") == "poll":
+        return run_poll(case)
     return run_one(case)
+
+
+def _collect_poll(shard, seed, n):
+    col = Collector(PID, RULE)
+
+    def body(case):
+        f = ["poll"]
+        if any(sum(1 for n in rnd if n) >= 2 for rnd in case["rounds"]):
+            f.append("requests-waiting-on-two-connections-at-one-poll")
+        col.record(case, run_poll(case), nontrivial=len(f) > 1, classes=f)
+
+    common.hyp_collect(poll_cases(), body, n, seed)
+    return col
 
 
 def features(case):
@@ -252,11 +267,12 @@ def _collect(shard, seed, n):
 def main(ctx):
     col = common.run_shards(_collect, 8 if ctx.quick else 16, ctx.seed, n=200 if ctx.quick else 4000)
     col.merge(common.run_shards(_collect_conc, 8 if ctx.quick else 16, ctx.seed, n=40 if ctx.quick else 800))
+    col.merge(common.run_shards(_collect_poll, 4 if ctx.quick else 16, ctx.seed + 5, n=60 if ctx.quick else 1500))
     for path, rec in common.load_replays(PID):
         col.record(rec["case"], run_case(rec["case"]), nontrivial=True, classes=["replay"])
     ctx.required_classes = ["shared-command-code", "request-on-shared-code", "unregistered", "outcome=none", "outcome=raise", "outcome=str",
                             "outcome=request", "outcome=generic", "outcome=raise-noargs", "form=decoded", "apps=3", "requests=4", "concurrent-dispatch",
-                            "same-code-on-two-applications-in-one-history"]
+                            "same-code-on-two-applications-in-one-history", "requests-waiting-on-two-connections-at-one-poll"]
     ctx.assumptions = ["in-process Worker objects with a fake multiprocessing manager; the hand-over is observed at the worker's send queue",
                        "handlers raise only standard Exception subclasses; requests carry Session-Id, Origin-Host and Origin-Realm",
                        "unregistered pairs: only 'no handler runs and nothing is sent' is asserted (documented behaviour)"]
@@ -376,3 +392,73 @@ def _collect_conc(shard, seed, n):
 
     common.hyp_collect(concurrent_cases(), body, n, seed)
     return col
+
+
+# ---------------------------------------------------------------------------------------------------------------------
+# the poll: requests arrive on one receive queue per connection; the main loop takes them with get_incoming_message()
+@st.composite
+def poll_cases(draw):
+    napps = draw(st.sampled_from([2, 2, 3]))
+    rounds = draw(st.lists(st.lists(st.integers(0, 2), min_size=napps, max_size=napps), min_size=1, max_size=4))
+    return {"kind": "poll", "napps": napps, "rounds": rounds, "same_code": draw(st.booleans())}
+
+
+def run_poll(case):
+    import struct
+    common.bootstrap()
+    refdict.all_classes()
+    from bromelia.base import DiameterRequest, DiameterAnswer
+    errors = common.lib_errors()
+    C = refdict.cls_obj
+    names = ["s6a", "s13", "gx"][:case["napps"]]
+    app, workers = inproc.make_app(names)
+    ids = [inproc.APPS[n][2] for n in names]
+    code = {a: (316 if case["same_code"] else 316 + k) for k, a in enumerate(ids)}
+    log = []
+    vs = []
+
+    def mk(a):
+        def handler(request):
+            log.append((a, request.header.get_hop_by_hop()))
+            return DiameterAnswer(command_code=code[a], application_id=a,
+                                  avps=[C("SessionIdAVP")(b"x"), C("ResultCodeAVP")(2001), C("OriginHostAVP")("l"), C("OriginRealmAVP")("r")])
+        handler.__name__ = f"h_{a}"
+        return handler
+    for a in ids:
+        app.route(application_id=struct.pack(">I", a), command_code=code[a].to_bytes(3, "big"))(mk(a))
+    sent = []
+    hbh = 0x100
+    try:
+        for rnd in case["rounds"]:
+            for k, n in enumerate(rnd):
+                for _ in range(n):
+                    hbh += 1
+                    r = DiameterRequest(command_code=code[ids[k]], application_id=ids[k],
+                                        avps=[C("SessionIdAVP")(f"p;{hbh}".encode()), C("OriginHostAVP")("peer.example"), C("OriginRealmAVP")("peer.realm")])
+                    r.header.hop_by_hop = hbh
+                    r.header.end_to_end = hbh + 0x1000
+                    workers[struct.pack(">I", ids[k])].notify_incoming_message(r)
+                    sent.append((ids[k], hbh))
+            # the main loop: one poll per tick until the queues are drained (bounded)
+            for _ in range(4 * (sum(rnd) + 1)):
+                m = app.get_incoming_message()
+                if m is not None:
+                    app.callback_route(m)
+    except (Exception,) + errors as e:
+        return [V("polling and dispatching incoming requests does not fail", f"poll/raises/{type(e).__name__}", repr(e))]
+    for a, h in sent:
+        n = log.count((a, h))
+        if n != 1:
+            vs.append(V("each request reaches its registered handler exactly once - also when requests wait on several connections "
+                        "at the same poll", f"poll/handler-calls/{min(n, 2)}", f"request {(a, hex(h))} ran {n}x; rounds {case['rounds']}"))
+            break
+    for k, a in enumerate(ids):
+        out = inproc.drain(workers[struct.pack(">I", a)])
+        want = sorted(h for (x, h) in sent if x == a)
+        got = sorted(m.header.get_hop_by_hop() for m in out)
+        if got != want:
+            vs.append(V("each request gets exactly one answer on its own connection", f"poll/answers/{'missing' if len(got) < len(want) else 'other'}",
+                        f"application {a}: answers for {got}, requests {want}"))
+            break
+    return vs
+
